@@ -24,7 +24,7 @@ DEC = "<key::CoseKey as common::AsCborValue>::from_cbor_value"
 RESULT = "key::CoseKey"
 
 CENSUS = {
-    ("pre", "propagate:" + codec.TRY_MAP),
+    ("pre", "not-a-map"),
     ("all", "propagate:<common::Label as common::AsCborValue>::from_cbor_value"),
     ("all", "err:DuplicateMapKey"),
     ("1", "propagate:<common::RegisteredLabel<T> as common::AsCborValue>::from_cbor_value"),
